@@ -124,6 +124,35 @@ def canonical_ok(x, y, z, tol=1e-7):
 
 
 # ------------------------------------------------------------------------------ matrix factorisations
+def check_shannon_structured(ctx, cirq):
+    """quantum Shannon decomposition of structured unitaries with (nearly) degenerate spectra in the demultiplexing step:
+    Fourier transforms and permutation-like matrices times a phase, products of identical blocks"""
+    rng = ctx.substream('shannon-structured')
+    cases = []
+    for nq in ((4, 5) if ctx.tier == 'quick' else (3, 4, 5)):
+        qs = cirq.LineQubit.range(nq)
+        uq = cirq.unitary(cirq.qft(*qs))
+        ks = (8, 3) if ctx.tier == 'quick' else range(10)
+        for k in ks:
+            cases.append((f'qft{nq}*phase{k}', qs, uq * np.exp(1j * np.linspace(0, 2 * np.pi, 10)[k])))
+    q3 = cirq.LineQubit.range(3)
+    cases.append(('ccx*phase', q3, cirq.unitary(cirq.CCX) * np.exp(0.7j)))
+    cases.append(('block-repeat', q3, np.kron(np.eye(2), gen.rand_unitary(rng, 4))))
+    cases.append(('cswap', q3, cirq.unitary(cirq.CSWAP)))
+    for name, qs, un in cases:
+        ctx.count('check', 'shannon:structured')
+        ctx.case(['shannon-structured', name], True)
+        rep = {'lines': [{'matrix': name}], 'theorem_or_correspondence': 'operation product via applyOps'}
+        try:
+            ops = list(cirq.flatten_to_ops(cirq.quantum_shannon_decomposition(qs, un)))
+        except ValueError as e:
+            ctx.report_witness('synth:shannon:raises', f'quantum_shannon_decomposition raises on a unitary input: {str(e)[:80]}', dict(rep, impl_out=[str(e)[:200]], spec_out=['operations whose product is the input']))
+            continue
+        got = cirq.Circuit(ops).unitary(qubit_order=qs, qubits_that_should_be_present=qs) if len(qs) > 4 else lean_product(ctx, cirq, ops, qs)
+        if not phase_close(got, un, 1e-5):
+            ctx.report_witness('synth:shannon', 'quantum_shannon_decomposition: the product of the operations is not the input', dict(rep, impl_out=[len(ops)], spec_out=['product = input up to phase']))
+
+
 def check_factoring(ctx, cirq, n):
     """factor_state_vector / factor_density_matrix: on a product state, for every choice and order of the extracted axes, the
     factors multiply back to the input (validation accepts it); an entangled state is rejected"""
@@ -469,6 +498,7 @@ def run(ctx: common.Run):
     check_canonicalize(ctx, cirq, n * 2)
     check_matrix_routines(ctx, cirq, n)
     check_factoring(ctx, cirq, max(20, n // 2))
+    check_shannon_structured(ctx, cirq)
     check_cnot_counts_and_tabulation(ctx, cirq, max(24, n // 2))
     check_synthesis(ctx, cirq, n)
 
